@@ -2,7 +2,7 @@
 (* Judges observations of real builds/runs: one record per program
      {id, rid, res, n, cap, base, step, mod, kind, w, m, builds, run, printed, msg}
    builds: ok | limiterror | otherbuilderror | othererror | hostpanic
-   run:    ok | panic | error | hostpanic | none
+   run:    ok | panic | error | timeout | hostpanic | none
    printed: the integer printed (-1: nothing / not an integer).
    EITHER refused with a limit-exceeded *BuildError OR built, ran and printed the reference
    checksum; nothing else (LimitsRef!Ok).  Records the reference cannot handle are skipped and counted. *)
